@@ -26,6 +26,14 @@
 //    that allocator's own designations". The allocator is changed only while no injection is armed. Clearing an injection
 //    that never entered the out-of-memory state (unexpired countdown) under a non-standard allocator is counted only:
 //    the unchanged cpputest installs the standard allocator there (TestHarness_c.cpp, originalAllocator still NULL).
+//  * "reported when the test asks for that check": the place of the request inside the test is a dimension of every
+//    FailableMemoryAllocator history - in the body of a test without a failure so far, in the body after an earlier
+//    (non-terminating) failure of the same test, in teardown() after a passing body, in teardown() after a body that
+//    failed for an unrelated reason. Judged everywhere alike: the check adds a failure of its own iff a designation is
+//    pending (the failure the test recorded before is subtracted, the wording is only judged when recognised).
+//  * the C interface's allocation statistics (cpputest_malloc_count_reset / cpputest_malloc_get_count) are part of the
+//    C-level histories: they may be called anywhere, also while a countdown is pending. They are no injection calls, so
+//    the model ignores them; the value get_count returns is observed and counted, never judged (outside the statement).
 #include "verif.h"
 #include <new>
 #include <climits>
@@ -82,6 +90,10 @@ static const char* kindname(int k) { return k == 1 ? "global" : k == 2 ? "locati
 // ================================================================ scenario
 enum { MODE_DIRECT = 0, MODE_INSTALLED = 1 };
 enum { K_REG, K_ALLOC, K_FREE, K_CHECK, K_CLEAR };
+// where in the test the check is asked for
+enum { CX_BODY = 0, CX_BODY_AFTER_NONFATAL_FAILURE, CX_TEARDOWN_AFTER_PASSING_BODY, CX_TEARDOWN_AFTER_FAILING_BODY, CX_N };
+static const char* CX_NAME[] = { "body", "body-after-nonfatal-failure", "teardown-after-passing-body", "teardown-after-failing-body" };
+static int cx_prefail(int cx) { return cx == CX_BODY_AFTER_NONFATAL_FAILURE || cx == CX_TEARDOWN_AFTER_FAILING_BODY ? 1 : 0; }
 enum { F_DIRECT, F_NEW, F_NEWA, F_NEW_NT, F_NEWA_NT, F_NEW_PLAIN, F_NEWA_PLAIN, F_MALLOC, F_MALLOC_NL, F_CALLOC, F_STRDUP, F_STRNDUP, F_N };
 static const char* FAM_NAME[] = { "direct", "new", "new[]", "new-nothrow", "new[]-nothrow", "new-plain", "new[]-plain", "malloc", "malloc-noloc", "calloc", "strdup", "strndup" };
 static int fam_group(int f) { if (f == F_DIRECT) return -1; if (f == F_NEW || f == F_NEW_NT || f == F_NEW_PLAIN) return 0; if (f == F_NEWA || f == F_NEWA_NT || f == F_NEWA_PLAIN) return 1; return 2; }
@@ -90,7 +102,7 @@ static bool fam_throws(int f) { return f == F_NEW || f == F_NEWA || f == F_NEW_P
 enum { O_NONE = 0, O_OK, O_NULL, O_BADALLOC, O_OTHER };
 
 struct Step {
-    int kind, a, L, n, fam, size, aux, victim; bool isLoc;
+    int kind, a, L, n, fam, size, aux, victim, ctx; bool isLoc;
     // expectation (from the model, computed while the scenario is built)
     bool exp_fail; int hit; bool after_clear; int pend; bool exp_checkfail;
     // observation (written by the test body: plain data only)
@@ -103,7 +115,7 @@ struct Live { void* p; int fam, a, size, L; unsigned char fill; };
 
 struct Run {
     int mode; int route[3]; bool ts; int nsteps; int nalloc;
-    int cursor; bool finished; bool installed; int segments;
+    int cursor; bool finished; bool installed; int segments; Step* teardown_check;
     Live live[MAXLIVE]; int nlive;
     FailableMemoryAllocator* fa[2];
     GlobalMemoryAllocatorStash stash;
@@ -137,8 +149,8 @@ struct Builder {
         }
     }
     void free_(int victim) { Step* s = push(K_FREE); s->victim = victim; }
-    void check(int a) {
-        int at = n; Step* s = push(K_CHECK); s->a = a; s->pend = model[a].pending(); s->exp_checkfail = s->pend != 0; s->after_clear = model[a].clears > 0;
+    void check(int a, int ctx = CX_BODY) {
+        int at = n; Step* s = push(K_CHECK); s->a = a; s->ctx = ctx; s->pend = model[a].pending(); s->exp_checkfail = s->pend != 0; s->after_clear = model[a].clears > 0;
         if (at < MAXSTEPS) for (const MDes& d : model[a].des) if (!d.fired) {
             if (d.isLoc) { for (int L = 0; L < NLOC; L++) if (LOCS[L].id == d.locid) accept[at].push_back(std::string("Expected failing alloc at ") + LOCS[L].file + ":" + std::to_string((int) LOCS[L].line) + " was never done"); }
             else accept[at].push_back("Expected allocation number " + std::to_string(d.n) + " was never done");
@@ -154,7 +166,7 @@ struct Builder {
             case K_REG: if (s.isLoc) snprintf(b, sizeof b, "reg a%d #%d@%s", s.a, s.n, LOCS[s.L].tag); else snprintf(b, sizeof b, "reg a%d global#%d", s.a, s.n); break;
             case K_ALLOC: snprintf(b, sizeof b, "%s %s@%s size=%d%s", s.a >= 0 ? (s.a ? "a1" : "a0") : "dflt", FAM_NAME[s.fam], s.L >= 0 ? LOCS[s.L].tag : "-", s.size, s.exp_fail ? " =>FAIL" : ""); break;
             case K_FREE: snprintf(b, sizeof b, "free %d", s.victim); break;
-            case K_CHECK: snprintf(b, sizeof b, "check a%d%s", s.a, s.exp_checkfail ? " =>REPORT" : ""); break;
+            case K_CHECK: snprintf(b, sizeof b, "check a%d in %s%s", s.a, CX_NAME[s.ctx], s.exp_checkfail ? " =>REPORT" : ""); break;
             default: snprintf(b, sizeof b, "clear a%d", s.a); break;
             }
             it.push_back(vf::jstr(b));
@@ -228,6 +240,9 @@ static void do_alloc(Step& s, int stepno) {
                          p = cpputest_strndup_location(src, nn, file, line);
                          if (p && (strlen((char*) p) != want || memcmp(p, src, want) != 0)) s.content_bad = true; break; }
         }
+        // the compiler may assume that a throwing form of operator new never returns NULL and drop the tests below;
+        // "return NULL (or throw bad_alloc)" is accepted from every form, so the result is made opaque first
+        __asm__ __volatile__("" : "+r"(p));
         s.obs = p ? O_OK : O_NULL;
     }
 #ifndef VF_NOEXC
@@ -260,6 +275,12 @@ static void scenario_body() {
         case K_CLEAR: r.fa[s.a]->clearFailedAllocs(); break;
         case K_CHECK:
             free_all_live(&s); uninstall_allocators();
+            if (s.ctx == CX_BODY_AFTER_NONFATAL_FAILURE) { UtestShell* t = UtestShell::getCurrent(); t->addFailure(FailFailure(t, "unrelated.c", 7, "the code under test did not behave")); }
+            if (s.ctx == CX_TEARDOWN_AFTER_PASSING_BODY || s.ctx == CX_TEARDOWN_AFTER_FAILING_BODY) {
+                r.teardown_check = &s;        // the check is asked for in teardown()
+                if (s.ctx == CX_TEARDOWN_AFTER_FAILING_BODY) FAIL("the code under test did not behave");     // leaves the body
+                return;
+            }
             s.reached = true;
             r.fa[s.a]->checkAllFailedAllocsWereDone();     // leaves by exception when it fails the test
             s.returned = true;
@@ -268,6 +289,15 @@ static void scenario_body() {
     }
     free_all_live(NULL); uninstall_allocators();
     r.finished = true;
+}
+
+static void scenario_teardown() {
+    Run& r = g_run;
+    Step* s = r.teardown_check; if (!s) return;
+    r.teardown_check = NULL;
+    s->reached = true;
+    r.fa[s->a]->checkAllFailedAllocsWereDone();
+    s->returned = true;
 }
 
 // ================================================================ run + judge
@@ -279,7 +309,7 @@ static void run_and_judge(vf::Ctx& c, Builder& b, const std::string& ntsig, bool
     if (b.overflow) { c.count("scenario_too_long_skipped"); return; }
     Run& r = g_run;
     r.mode = b.mode; for (int g = 0; g < 3; g++) r.route[g] = b.route[g]; r.ts = b.ts; r.nsteps = b.n; r.nalloc = b.nalloc;
-    r.cursor = 0; r.finished = false; r.installed = false; r.segments = 0; r.nlive = 0;
+    r.cursor = 0; r.finished = false; r.installed = false; r.segments = 0; r.nlive = 0; r.teardown_check = NULL;
     FailableMemoryAllocator fa0("Failable allocator 0", "falloc0", "ffree0"), fa1("Failable allocator 1", "falloc1", "ffree1");
     r.fa[0] = &fa0; r.fa[1] = &fa1;
     std::set<std::string> seen;
@@ -287,6 +317,7 @@ static void run_and_judge(vf::Ctx& c, Builder& b, const std::string& ntsig, bool
     {
         TestTestingFixture fx;
         fx.setTestFunction(scenario_body);
+        fx.setTeardown(scenario_teardown);
         size_t out_len = 0;
         int guard = 0;
         while (!r.finished && guard++ < MAXSTEPS + 2) {
@@ -295,6 +326,7 @@ static void run_and_judge(vf::Ctx& c, Builder& b, const std::string& ntsig, bool
             fx.runAllTests();
             // safety net: a body left abnormally must not leave the allocators installed
             if (r.installed) { uninstall_allocators(); r.nlive = 0; }
+            r.teardown_check = NULL;
             size_t delta = fx.getFailureCount() - f0;
             std::string out = fx.getOutput().asCharString();
             std::string fresh = out.size() >= out_len ? out.substr(out_len) : out; out_len = out.size();
@@ -303,13 +335,21 @@ static void run_and_judge(vf::Ctx& c, Builder& b, const std::string& ntsig, bool
             if (ended_in_check) {
                 last->fail_delta = (int) delta;
                 int at = r.cursor - 1;
-                bool failed = delta > 0 || !last->returned;
+                // failures the test itself recorded before it asked for the check are not the check's
+                int prefail = cx_prefail(last->ctx);
+                if ((int) delta < prefail) c.count("check_context_own_failure_not_recorded");
+                int own = (int) delta - prefail;
+                bool failed = own > 0 || !last->returned;
+                std::string cxs = last->ctx == CX_BODY ? "" : std::string(":asked-in-") + CX_NAME[last->ctx];
+                { std::string cn = std::string("check_asked_in_") + CX_NAME[last->ctx]; for (char& ch : cn) if (ch == '-') ch = '_'; c.count(cn); }
                 if (last->exp_checkfail && !failed)
-                    viol_once(c, seen, std::string("fa:check-silent-with-unfired:") + kindname(last->pend), "checkAllFailedAllocsWereDone returned without failing the test although a designation never fired (step " + std::to_string(at) + ")");
+                    viol_once(c, seen, std::string("fa:check-silent-with-unfired:") + kindname(last->pend) + cxs, std::string("checkAllFailedAllocsWereDone (asked for in ") + CX_NAME[last->ctx] + ") returned without failing the test although a designation never fired (step " + std::to_string(at) + "; failures recorded in this test run: " + std::to_string((int) delta) + ", of which the test's own earlier failure: " + std::to_string(prefail) + ")");
                 if (!last->exp_checkfail && failed)
-                    viol_once(c, seen, std::string("fa:check-failed-with-none-pending") + (last->after_clear ? ":after-clear" : ""), "checkAllFailedAllocsWereDone failed the test although every designation fired / none exists (step " + std::to_string(at) + "): " + fresh.substr(0, 300));
+                    viol_once(c, seen, std::string("fa:check-failed-with-none-pending") + (last->after_clear ? ":after-clear" : "") + cxs, "checkAllFailedAllocsWereDone failed the test although every designation fired / none exists (step " + std::to_string(at) + "): " + fresh.substr(0, 300));
+                if (prefail) c.count(last->exp_checkfail ? (failed ? "check_reported_unfired_in_already_failed_test" : "check_silent_with_unfired_in_already_failed_test") : (failed ? "check_failed_with_none_pending_in_already_failed_test" : "check_silent_in_already_failed_test"));
+                if (last->ctx == CX_TEARDOWN_AFTER_PASSING_BODY || last->ctx == CX_TEARDOWN_AFTER_FAILING_BODY) c.count(last->exp_checkfail && failed ? "check_reported_unfired_from_teardown" : "check_other_outcome_from_teardown");
                 if (last->exp_checkfail && failed) {
-                    if (delta != 1) c.count("check_recorded_other_than_one_failure");      // observation only: the statement demands a report, not exactly one
+                    if (own != 1) c.count("check_recorded_other_than_one_failure");      // observation only: the statement demands a report, not exactly one
                     // which designation the report names is judged only when the wording is the recognised one
                     // (the statement demands a report, not a particular text)
                     bool named = false;
@@ -386,6 +426,8 @@ static void emit_alloc(Builder& b, vf::Rng& r, int a_direct, int L) {
 
 struct Deferred { int a, n, L; };
 
+static int pick_ctx(vf::Rng& r) { uint64_t x = r.below(100); return x < 52 ? CX_BODY : x < 68 ? CX_BODY_AFTER_NONFATAL_FAILURE : x < 84 ? CX_TEARDOWN_AFTER_PASSING_BODY : CX_TEARDOWN_AFTER_FAILING_BODY; }
+
 static void gen_random(Builder& b, vf::Rng& r) {
     // locations of this history
     std::vector<int> locs;
@@ -431,7 +473,7 @@ static void gen_random(Builder& b, vf::Rng& r) {
         }
         bool last = ph == phases - 1;
         for (int a = 0; a < b.nalloc; a++) {
-            if (r.chance(80)) b.check(a);
+            if (r.chance(80)) b.check(a, pick_ctx(r));
             if (last || r.chance(60)) b.clear(a);
         }
     }
@@ -440,7 +482,7 @@ static void gen_random(Builder& b, vf::Rng& r) {
         int t = r.range(2, 5);
         for (int i = 0; i < t; i++) emit_alloc(b, r, a, pickloc());
     }
-    for (int a = 0; a < b.nalloc; a++) b.check(a);
+    for (int a = 0; a < b.nalloc; a++) b.check(a, pick_ctx(r));
 }
 
 static void sec_direct_random(vf::Ctx& c) {
@@ -519,6 +561,33 @@ static void sec_fault_enum(vf::Ctx& c) {
     c.count(d2 >= 0 ? "fault_points_pairs" : "fault_points_single");
 }
 
+// ================================================================ where the check is asked for x what is pending (complete table)
+// global designation {none, fires, never reached} x location designation {none, fires, never reached} x registration order
+// x the four places a test can ask from x {direct, installed}; then clear, two more allocations and a second request from
+// the same place (nothing pending: must stay silent there as well).
+static void sec_check_context(vf::Ctx& c) {
+    uint64_t i = c.idx;
+    int mode = (int) (i % 2); i /= 2; int ctx = (int) (i % CX_N); i /= CX_N; int g = (int) (i % 3); i /= 3; int l = (int) (i % 3); i /= 3; bool locfirst = i & 1;
+    static const int ALL0[3] = { 0, 0, 0 };
+    Builder b(mode, 1, mode == MODE_INSTALLED ? ALL0 : NULL, false);
+    static const char* PN[] = { "none", "fires", "never-reached" };
+    b.note = vf::J().k("check_asked_in", CX_NAME[ctx]).k("global_designation", PN[g]).k("location_designation", PN[l]).k("location_registered_first", locfirst).str();
+    auto regl = [&]() { if (l == 1) b.reg(0, true, 2, 2); else if (l == 2) b.reg(0, true, 3, 1); };          // #2@B10 fires, #3@A11 is never reached (2 requests there)
+    if (locfirst) regl();
+    if (g == 1) b.reg(0, false, 3, -1); else if (g == 2) b.reg(0, false, 8, -1);                              // 6 allocations follow
+    if (!locfirst) regl();
+    static const int SEQ[] = { 0, 2, 1, 2, 3, 1 };
+    static const int FL[] = { F_MALLOC, F_NEW, F_NEWA, F_CALLOC, F_STRDUP, F_STRNDUP };
+    int k = 0;
+    auto one = [&](int L) { int fam = mode == MODE_DIRECT ? F_DIRECT : FL[(k + ctx + g) % 6]; b.alloc(0, L, fam, 6 + 5 * k, fam == F_CALLOC ? 4 : fam == F_STRNDUP ? 20 : 0); k++; };
+    for (int L : SEQ) one(L);
+    b.check(0, ctx); b.clear(0);
+    one(1); one(2);
+    b.check(0, ctx);
+    run_and_judge(c, b, "checkctx:" + std::to_string(c.idx), g != 0 || l != 0);
+    c.count("check_context_points");
+}
+
 // ================================================================ location names that are easily confused (complete table)
 // "the n-th allocation at a given source location": a location is the whole (file text, line). For every position p in
 // 0..NAME_PMAX a pair of names X (designated) / Y (allocated from, same line) is built whose first difference is at p:
@@ -565,10 +634,10 @@ static void sec_name_discrimination(vf::Ctx& c) {
 }
 
 // ================================================================ C level: countdown / out-of-memory / restore
-enum { CO_MALLOC, CO_MALLOC_NL, CO_CALLOC, CO_CALLOC_NL, CO_STRDUP, CO_STRDUP_NL, CO_STRNDUP, CO_STRNDUP_NL, CO_REALLOC, CO_REALLOC_NULL, CO_FREE, CO_SET_COUNTDOWN, CO_SET_OOM, CO_RESTORE, CO_SWITCH, CO_N };
-static const char* CO_NAME[] = { "malloc", "malloc-noloc", "calloc", "calloc-noloc", "strdup", "strdup-noloc", "strndup", "strndup-noloc", "realloc", "realloc-from-null", "free", "countdown", "set_out_of_memory", "set_not_out_of_memory", "switch-malloc-allocator" };
+enum { CO_MALLOC, CO_MALLOC_NL, CO_CALLOC, CO_CALLOC_NL, CO_STRDUP, CO_STRDUP_NL, CO_STRNDUP, CO_STRNDUP_NL, CO_REALLOC, CO_REALLOC_NULL, CO_FREE, CO_SET_COUNTDOWN, CO_SET_OOM, CO_RESTORE, CO_SWITCH, CO_COUNT_RESET, CO_GET_COUNT, CO_N };
+static const char* CO_NAME[] = { "malloc", "malloc-noloc", "calloc", "calloc-noloc", "strdup", "strdup-noloc", "strndup", "strndup-noloc", "realloc", "realloc-from-null", "free", "countdown", "set_out_of_memory", "set_not_out_of_memory", "switch-malloc-allocator", "malloc_count_reset", "malloc_get_count" };
 static bool co_malloc_type(int op) { return op <= CO_STRNDUP_NL; }
-struct CStep { int op, n, size, aux, victim; int d[2], dl; int obs; int served; bool content_bad; bool skipped; bool noop; };
+struct CStep { int op, n, size, aux, victim; int d[2], dl; int obs; int served; int count_seen; bool content_bad; bool skipped; bool noop; };
 // The malloc allocator the test has put in effect: the standard one (0) or one of two failable allocators that count the
 // requests reaching them (1, 2). All carry the standard allocator's name: releasing a block while another one of them is
 // current is then no allocator mismatch for cpputest (releases are outside the statement).
@@ -605,6 +674,8 @@ static void c_body() {
         case CO_SET_COUNTDOWN: cpputest_malloc_set_out_of_memory_countdown(s.n); armed = true; oom_seen = false; s.obs = O_OK; continue;
         case CO_SET_OOM: cpputest_malloc_set_out_of_memory(); armed = true; oom_seen = false; s.obs = O_OK; continue;
         case CO_RESTORE: cpputest_malloc_set_not_out_of_memory(); armed = false; oom_seen = false; s.obs = O_OK; continue;
+        case CO_COUNT_RESET: cpputest_malloc_count_reset(); s.obs = O_OK; continue;          // allocation statistics of the C interface:
+        case CO_GET_COUNT: s.count_seen = cpputest_malloc_get_count(); s.obs = O_OK; continue;   // no injection calls
         case CO_FREE:
             if (g_nclive == 0) { s.noop = true; continue; }
             if (armed && oom_seen) { s.skipped = true; continue; }
@@ -666,6 +737,7 @@ struct CBuilder {
         CStep* s = push(k == 0 ? CO_FREE : k == 1 ? CO_REALLOC : CO_REALLOC_NULL);
         s->size = r.range(1, 64); s->victim = (int) r.below(1000); s->aux = (int) r.below(2);
     }
+    void stat(vf::Rng& r) { push(r.chance(65) ? CO_COUNT_RESET : CO_GET_COUNT); }
     void sw(vf::Rng& r, int to = -1) {
         CStep* s = push(CO_SWITCH); s->n = to >= 0 ? to : (int) r.below(3);
         if (s->n > 0) { for (int k = 0; k < 2; k++) if (r.chance(55)) s->d[k] = r.range(1, 7); if (r.chance(30)) s->dl = r.range(1, 3); }
@@ -678,18 +750,21 @@ struct CBuilder {
 };
 
 // one round: [set] ops [restore] post-ops. n < 0: direct set_out_of_memory; M malloc-type requests
-static void c_round(CBuilder& b, vf::Rng& r, int n, int M, bool mix) {
+// statpct: chance (per position) of a call of the allocation statistics API (count_reset / get_count) in between
+static void c_round(CBuilder& b, vf::Rng& r, int n, int M, bool mix, int statpct = 0) {
+    if (statpct && r.chance(statpct)) b.stat(r);
     if (n < 0) b.push(CO_SET_OOM); else b.push(CO_SET_COUNTDOWN)->n = n;
     int issued = 0;
     bool oomA = n <= 0;      // reading A: only malloc-type requests count
     while (issued < M) {
+        if (statpct && r.chance(statpct)) { b.stat(r); if (r.chance(50)) continue; }
         if (mix && !oomA && r.chance(30)) { b.other(r); continue; }
         b.malloc_type(r); issued++;
         if (n > 0 && issued >= n) oomA = true;
     }
     b.push(CO_RESTORE);
     int post = r.range(1, 4);
-    for (int i = 0; i < post; i++) { if (r.chance(35)) b.other(r); else b.malloc_type(r); }
+    for (int i = 0; i < post; i++) { if (statpct && r.chance(statpct)) b.stat(r); if (r.chance(35)) b.other(r); else b.malloc_type(r); }
 }
 
 static void c_run_and_judge(vf::Ctx& c, CBuilder& b, const std::string& sig) {
@@ -701,9 +776,11 @@ static void c_run_and_judge(vf::Ctx& c, CBuilder& b, const std::string& sig) {
     {
         TestTestingFixture fx;
         fx.setTestFunction(c_body);
+        cpputest_malloc_count_reset();       // the statistic is process-wide state: every case starts from 0
         fx.runAllTests();
         // reset every global the C interface touches, whatever happened
         cpputest_malloc_set_not_out_of_memory();
+        cpputest_malloc_count_reset();
         setCurrentMallocAllocatorToDefault();
         for (TaggedFailable& t : g_T) { t.clearFailedAllocs(); t.received = 0; }
         if (fx.getFailureCount() > 0 || !g_c_done)
@@ -720,18 +797,31 @@ static void c_run_and_judge(vf::Ctx& c, CBuilder& b, const std::string& sig) {
     // are accepted.
     int eff = 0; bool eff_uncertain = false; int cntA = 0, cntB = 0, locA = 0, locB = 0; std::set<int> D; int DL = 0;
     std::set<int> eff_of_earlier_episodes;
+    int stat_requests = 0;       // malloc-type requests since the statistics were last reset (observation only)
+    bool stat_reset_in_episode = false;   // the statistics were reset since the current injection was set (names the history shape in the key)
     for (int i = 0; i < b.n; i++) {
         const CStep& s = g_csteps[i];
         if (s.skipped) { c.count("c_steps_skipped_adaptively"); continue; }
         if (s.noop) continue;
+        if (s.op == CO_COUNT_RESET || s.op == CO_GET_COUNT) {
+            if (s.obs == O_NONE) continue;
+            // in which state of the injection the statistics API was called
+            bool pending = false, expired = false;
+            for (const Cand& k : cand) if (k.alive) { if (armed && !k.oom && k.remaining > 0) pending = true; if (armed && k.oom) expired = true; }
+            const char* st = !armed ? (restored_once ? "after_restore" : "before_any_injection") : pending ? (reqs_since_set > 0 ? "while_countdown_pending_after_counted_requests" : "while_countdown_pending_before_first_request") : expired ? "while_out_of_memory" : "while_armed_other";
+            c.count(std::string(s.op == CO_COUNT_RESET ? "c_statistics_reset_" : "c_statistics_get_count_") + st);
+            if (s.op == CO_COUNT_RESET) { stat_requests = 0; if (armed) stat_reset_in_episode = true; }
+            else c.count(s.count_seen == stat_requests ? "c_statistics_count_equals_malloc_type_requests_since_reset" : "c_statistics_count_differs_from_malloc_type_requests_since_reset");
+            continue;
+        }
         std::string nm = CO_NAME[s.op];
         std::string cls = s.op <= CO_MALLOC_NL ? "malloc" : s.op <= CO_CALLOC_NL ? "calloc" : s.op <= CO_STRDUP_NL ? "strdup" : s.op <= CO_STRNDUP_NL ? "strndup" : "realloc";
         if (s.op == CO_SWITCH) {
             eff = s.n; eff_uncertain = false; cntA = cntB = locA = locB = 0; D.clear(); for (int k = 0; k < 2; k++) if (s.d[k] > 0) D.insert(s.d[k]); DL = s.dl;
             c.count(eff ? "c_switch_to_failable_malloc_allocator" : "c_switch_to_standard_malloc_allocator"); continue;
         }
-        if (s.op == CO_SET_COUNTDOWN) { for (Cand& k : cand) { k.alive = true; k.remaining = s.n; k.oom = s.n == 0; } armed = true; direct = false; reqs_since_set = 0; c.count("c_countdowns_set"); continue; }
-        if (s.op == CO_SET_OOM) { for (Cand& k : cand) { k.alive = true; k.remaining = -1; k.oom = true; } armed = true; direct = true; reqs_since_set = 0; c.count("c_direct_oom_set"); continue; }
+        if (s.op == CO_SET_COUNTDOWN) { for (Cand& k : cand) { k.alive = true; k.remaining = s.n; k.oom = s.n == 0; } armed = true; direct = false; reqs_since_set = 0; stat_reset_in_episode = false; c.count("c_countdowns_set"); continue; }
+        if (s.op == CO_SET_OOM) { for (Cand& k : cand) { k.alive = true; k.remaining = -1; k.oom = true; } armed = true; direct = true; reqs_since_set = 0; stat_reset_in_episode = false; c.count("c_direct_oom_set"); continue; }
         if (s.op == CO_RESTORE) {
             // Clearing an injection that never reached the out-of-memory state (countdown not expired, or nothing set) while a
             // non-standard malloc allocator is in effect: the unchanged cpputest installs the standard allocator there
@@ -743,7 +833,7 @@ static void c_run_and_judge(vf::Ctx& c, CBuilder& b, const std::string& sig) {
                 if (other) c.count("c_restore_of_episode_under_other_allocator_than_an_earlier_episode");
                 eff_of_earlier_episodes.insert(eff);
             }
-            for (Cand& k : cand) { k.alive = true; k.remaining = -1; k.oom = false; } armed = false; restored_once = true; c.count("c_restores"); continue;
+            for (Cand& k : cand) { k.alive = true; k.remaining = -1; k.oom = false; } armed = false; restored_once = true; stat_reset_in_episode = false; c.count("c_restores"); continue;
         }
         if (s.op == CO_FREE) { if (s.content_bad) viol_once(c, seen, "c-level:content:pattern-damaged-at-release", "step " + std::to_string(i)); c.count("c_free"); continue; }
         if (s.obs == O_NONE) { if (g_c_done) viol_once(c, seen, "c-level:step-not-executed", "step " + std::to_string(i)); continue; }
@@ -753,7 +843,7 @@ static void c_run_and_judge(vf::Ctx& c, CBuilder& b, const std::string& sig) {
         if (isrealloc) mixed = true;
         // predictions
         bool pred[2];
-        if (!isrealloc) { for (Cand& k : cand) step_count(k); pred[0] = cand[0].oom; pred[1] = cand[1].oom; reqs_since_set++; }
+        if (!isrealloc) { for (Cand& k : cand) step_count(k); pred[0] = cand[0].oom; pred[1] = cand[1].oom; reqs_since_set++; stat_requests++; }
         else { pred[0] = false; step_count(cand[1]); pred[1] = cand[1].oom; }
         // the failable allocator in effect: is this request one of its designated ones?
         int recv = s.served;        // bit set of the failable allocators the request reached
@@ -781,6 +871,7 @@ static void c_run_and_judge(vf::Ctx& c, CBuilder& b, const std::string& sig) {
         for (int k = 0; k < 2; k++) if (cand[k].alive && ex[k] == JX_FITS) any_ok = true;
         if (!any_ok) {
             std::string phase = armed ? (direct ? "out-of-memory" : "countdown") : (restored_once ? "after-restore" : "before-any-injection");
+            if (armed && stat_reset_in_episode) phase += "-with-statistics-reset-since-armed";
             int why = cand[0].alive ? ex[0] : ex[1];
             std::string where = "step " + std::to_string(i) + " (" + nm + ", request #" + std::to_string(reqs_since_set) + " since the injection was set, malloc allocator in effect: " + EFF_NAME[eff] + ")";
             if (why == JX_SHOULD_SUCCEED) viol_once(c, seen, "c-" + phase + ":failed-but-should-succeed:" + cls, where + " returned NULL");
@@ -810,13 +901,14 @@ static void c_run_and_judge(vf::Ctx& c, CBuilder& b, const std::string& sig) {
 static void sec_c_switch_random(vf::Ctx& c) {
     CBuilder b; vf::Rng& r = c.rng;
     int rounds = r.range(2, 4);
+    int statpct = r.chance(40) ? 20 : 0;
     for (int k = 0; k < rounds; k++) {
         if (r.chance(75)) b.sw(r);
         int pre = (int) r.below(3);
         for (int i = 0; i < pre; i++) { if (r.chance(25)) b.other(r); else b.malloc_type(r); }
         int M = r.range(2, 10);
         int n = r.chance(15) ? -1 : r.chance(10) ? r.range(M + 1, M + 2) : r.range(0, M);
-        c_round(b, r, n, M, r.chance(40));
+        c_round(b, r, n, M, r.chance(40), statpct);
     }
     c_run_and_judge(c, b, "");
     c.count("histories_c_level_with_allocator_switches");
@@ -844,10 +936,11 @@ static void sec_c_random(vf::Ctx& c) {
     int pre = (int) r.below(4);
     for (int i = 0; i < pre; i++) { if (r.chance(30)) b.other(r); else b.malloc_type(r); }
     int rounds = r.range(1, 3);
+    int statpct = r.chance(50) ? 20 : 0;
     for (int k = 0; k < rounds; k++) {
         int M = r.range(3, 14);
         int n = r.chance(12) ? -1 : r.range(0, M + 2);
-        c_round(b, r, n, M, r.chance(70));
+        c_round(b, r, n, M, r.chance(70), statpct);
     }
     c_run_and_judge(c, b, "");
     c.count("histories_c_level");
@@ -868,6 +961,28 @@ static void sec_c_enum(vf::Ctx& c) {
     char sig[64]; snprintf(sig, sizeof sig, "cenum:%d:%d", (int) w, k);
     c_run_and_judge(c, b, sig);
     c.count("c_fault_points");
+}
+
+// complete: a call of the allocation statistics API at every position of a countdown episode.
+// pre 0..3 requests before arming x countdown 0..7 x position 0..9 of the statistics call (0 = between the last earlier
+// request and arming, 1 = right after arming, p = after the (p-1)-th request since arming) x {count_reset, get_count then
+// count_reset, get_count}; 9 requests through alternating entry points, restore, 2 more.
+static void sec_c_stat_enum(vf::Ctx& c) {
+    uint64_t i = c.idx;
+    int pre = (int) (i % 4); i /= 4; int n = (int) (i % 8); i /= 8; int pos = (int) (i % 10); i /= 10; int what = (int) (i % 3);
+    vf::Rng r(0xC155, c.idx, 5);
+    CBuilder b;
+    static const int ENTRY[] = { CO_MALLOC, CO_CALLOC_NL, CO_STRDUP, CO_STRNDUP_NL, CO_MALLOC_NL, CO_CALLOC, CO_STRDUP_NL, CO_STRNDUP };
+    auto stat = [&]() { if (what >= 1) b.push(CO_GET_COUNT); if (what <= 1) b.push(CO_COUNT_RESET); };
+    for (int k = 0; k < pre; k++) b.malloc_type(r, ENTRY[(k + n) % 8]);
+    if (pos == 0) stat();
+    b.push(CO_SET_COUNTDOWN)->n = n;
+    if (pos == 1) stat();
+    for (int k = 1; k <= 9; k++) { b.malloc_type(r, ENTRY[(k + pre) % 8]); if (pos == k + 1) stat(); }
+    b.push(CO_RESTORE);
+    b.malloc_type(r, CO_MALLOC); b.malloc_type(r, CO_STRDUP_NL);
+    c_run_and_judge(c, b, "cstat:" + std::to_string(c.idx));
+    c.count("c_statistics_call_points");
 }
 
 // realloc(NULL, size) while out-of-memory is simulated: an allocation made after the countdown expired. NULL and a
@@ -944,6 +1059,8 @@ int main(int argc, char** argv) {
         { "c_countdown_enumeration", cenum_total, cenum_total, sec_c_enum, true },
         { "c_realloc_null_in_oom", 24, 24, sec_c_realloc_null, true },
         { "c_episodes_x_malloc_allocators", 6 * 6 * 6, 6 * 6 * 6, sec_c_switch_enum, true },
+        { "check_asked_from_every_place_x_pending", 2 * CX_N * 3 * 3 * 2, 2 * CX_N * 3 * 3 * 2, sec_check_context, true },
+        { "c_countdown_x_statistics_call_position", 4 * 8 * 10 * 3, 4 * 8 * 10 * 3, sec_c_stat_enum, true },
         { "global_designation_after_earlier_allocations", 7 * 4 * 3 * 3 * 2, 7 * 4 * 3 * 3 * 2, sec_late_global, true },
         { "failable_direct_random", 20000, 300000, sec_direct_random, false },
         { "failable_installed_random", 16000, 250000, sec_installed_random, false },
